@@ -314,10 +314,15 @@ def extract():
     tmod = world.mods['tensor']
     T = tmod.classes['Tensor']
     mmeta = []
+    helpers = []
     for st in T.body:
         if not isinstance(st, ast.FunctionDef):
             continue
         if st.name in TENSOR_NON_OPS or any(U(d).endswith('.setter') or U(d) == 'property' for d in st.decorator_list):
+            continue
+        if st.name.startswith('_') and not st.name.startswith('__'):
+            # a private helper is not a public operation: it is translated (from its AST) where an operation calls it
+            helpers.append(st.name)
             continue
         if st.name not in TENSOR_METHODS:
             raise Untranslatable(tmod.file, st.lineno, "Tensor method %s is neither a known operation nor a known non-operation" % st.name)
@@ -343,11 +348,24 @@ def extract():
         for combo in itertools.product(*choices):
             rows.append({'name': "Tensor.%s#%d" % (st.name, nrow), 'fn': 'Tensor.' + st.name, 'args': list(combo),
                          'expr': "(DTuple [DApp %s [%s]])" % (cn, "; ".join("(DParam %d)" % i for i in range(len(params)))),
-                         'accs': [], 'kind': 'method'})
+                         'accs': [], 'kind': 'method',
+                         'scalar_operand': any(a in ('PyFloat', 'PyInt', ('PyBool', None)) for a in combo) and st.name.startswith('__')})
             nrow += 1
         mmeta.append({'coq': cn, 'fn': 'Tensor.' + st.name, 'params': params, 'rows': nrow})
-    # default upstream gradient of backward(): ones_like(self.data)
+    # how a non-Tensor operand of `+` is turned into a tensor: the else-branch of
+    #   summand = summand if isinstance(summand, Tensor) else <E>      in Tensor.__add__, over (self, operand)
     it = A.Interp(world)
+    addfd = [st for st in T.body if isinstance(st, ast.FunctionDef) and st.name == '__add__'][0]
+    wrap = None
+    for sub in ast.walk(addfd):
+        if isinstance(sub, ast.IfExp) and U(sub.test).startswith('isinstance(') and U(sub.test).endswith(', Tensor)'):
+            other = [a.arg for a in addfd.args.args][1]
+            wfr = A.Frame(tmod, 'tensor', None)
+            wrap = it.ev(sub.orelse, A.Env({'self': A.V(A.P(0), 'T'), other: A.V(A.P(1), 'A')}, 2), wfr).e
+    if wrap is None:
+        raise Untranslatable(tmod.file, addfd.lineno, "Tensor.__add__: wrapping of a non-Tensor operand not found")
+    world.scalar_wrap = wrap
+    world.helpers = helpers
     dflt_cn, _ = world.func('tfun', 'tensor', 'ones_like')
     # ---- layers, activations, losses -----------------------------------------------------------------------------
     layer_defs = []
@@ -461,6 +479,15 @@ def emit(world, flags, rows, lrows, wmeta, mmeta, lmeta, layer_defs, dflt_cn):
         out.append("")
     out.append("Definition op_rows : list oprow := wrapper_rows ++ method_rows.")
     out.append("")
+    out.append("(* Tensor.__add__: what a non-Tensor operand becomes, over [self; operand] *)")
+    out.append("Definition scalar_wrap : dexpr :=\n  %s." % A.coq(world.scalar_wrap))
+    out.append("")
+    sc = [r for r in rows if r['kind'] == 'method' and r.get('scalar_operand')]
+    out.append("(* rows of the operator overloads with a Python int / float / bool second operand; a Python scalar is not a valid")
+    out.append("   operand of @ (functional.matmul rejects operands with fewer than two dimensions): those rows are listed apart *)")
+    out.append("Definition scalar_operand_rows : list oprow :=\n  [%s]." % ";\n   ".join(row(r) for r in sc if 'matmul' not in r['fn']))
+    out.append("Definition matmul_scalar_rows : list oprow :=\n  [%s]." % ";\n   ".join(row(r) for r in sc if 'matmul' in r['fn']))
+    out.append("")
     out.append("(* rows of layer / loss classes whose constructors create no tensor (no parameters, no running statistics) *)")
     out.append("Definition param_free_layer_rows : list oprow :=\n  [%s]." % ";\n   ".join(row(r) for r in lrows if r.get('param_free')))
     return "\n".join(out) + "\n"
@@ -476,7 +503,7 @@ def generate():
             'kernels': [{'coq': cn, 'module': m['module'], 'name': m['name'], 'params': m['params'], 'lines': m['lines'], 'size': m['size'], 'ret_arity': m.get('ret_arity')}
                         for cn, e, m in world.defs if m['kind'] == 'kernel'],
             'tfuns': [{'coq': cn, 'name': m['name'], 'params': m['params']} for cn, e, m in world.defs if m['kind'] == 'tfun'],
-            'wrappers': wmeta, 'methods': mmeta, 'layers': lmeta,
+            'wrappers': wmeta, 'methods': mmeta, 'layers': lmeta, 'tensor_helpers': getattr(world, 'helpers', []),
             'rows': [{'name': r['name'], 'fn': r['fn'], 'args': r['args']} for r in rows],
             'layer_rows': [{'name': r['name'], 'fn': r['fn'], 'args': r['args']} for r in lrows]}
     json.dump(info, open(os.path.join(common.ROOT, "work", "dtype.json"), "w"), indent=1, default=str)
